@@ -57,7 +57,7 @@ func init() {
 			}},
 			{Name: "sctp-faults", Weight: 1, Bubble: true, Run: c15Sctp},
 			{Name: "sweep-placement", Bubble: true, Run: c15Sweep, SweepN: c15SweepN, QuickSweep: true, Exhaustive: true,
-				SweepNote: "3 connections x 3 requests; one fault of each of 9 kinds (handler panic, reset mid-message, 7 kinds of undecodable message) at every (connection, position), with 0 or 3 temporary accept errors first; the delivery/release schedule of each case is seeded: 216 cases"},
+				SweepNote: "3 connections x 3 requests; one fault of each of 11 kinds (handler panic, reset mid-message, 9 kinds of undecodable message) at every (connection, position), with 0 or 3 temporary accept errors first; the delivery/release schedule of each case is seeded: 264 cases"},
 		},
 		MustProbes: []string{"late-connection", "malformed-reported", "recovered-panic-logged", "runtime-registration", "sctp-read-error", "long-accept-error-run"},
 	})
@@ -69,7 +69,7 @@ func c16Tcp(e *Env) {
 	newSrvWorld(e, cfg).run()
 }
 
-func c15SweepN(thorough bool) int { return 3 * 4 * 9 * 2 }
+func c15SweepN(thorough bool) int { return 3 * 4 * 11 * 2 }
 
 func c15Sweep(e *Env) {
 	k := e.Case
@@ -78,8 +78,8 @@ func c15Sweep(e *Env) {
 	k /= 3
 	f.pos = k % 4
 	k /= 4
-	kind := k % 9
-	k /= 9
+	kind := k % 11
+	k /= 11
 	f.acceptErrs = k * 3
 	switch {
 	case kind == 0:
